@@ -1,63 +1,125 @@
 #!/usr/bin/env python3
-"""Copies the independently produced breaking changes that were validated by seedeval.py
-from /tmp/seed_out into /verif/seeded/<id>/<n>/ and writes the summary table."""
+"""Copies the independently produced breaking changes (deliveries of the sub-agents in
+/tmp/seed_out/<id>/: patchN.diff, demoN*, metaN.json) that seedeval.py validated into
+/verif/seeded/<id>/<n>/ and writes seeded/SUMMARY.md.
+
+Evaluation records used (all produced by seedeval.py / the first-evaluation scripts):
+  round 1 (n = 1,2)  first: /tmp/seed_out/round1/eval_*      current: /tmp/seed_out/round3/eval_*
+  round 2 (n = 3,4)  first: /tmp/seed_out/first2/ (the checks as committed before the changes existed,
+                            /verif@3964ae2, against /repo@0f5ed40)      current: /tmp/seed_out/round3/eval_*
+  round 3 (n = 5) and C10 / C19 (n = 1,2)  first: /tmp/seed_out/round4/eval_*   current: /tmp/seed_out/round5/eval_* if present
+"""
 import json, os, glob, shutil, re
 
 V = os.path.dirname(os.path.abspath(__file__))
-rows = []
-for ev in sorted(glob.glob("/tmp/seed_out/eval_*.json")):
-    r = json.load(open(ev))
-    pid, n = r["property"], r["n"]
-    src = "/tmp/seed_out/%s" % pid
-    meta_src = "%s/meta%s.json" % (src, n)
-    if not os.path.exists(meta_src):
-        continue
+OUT = "/tmp/seed_out"
+VERDICT = {0: "missed", 1: "caught", 2: "inconclusive"}
+
+# first evaluations that raised an alarm for a reason unrelated to the change do not count as caught
+WRONG_REASON = {
+    ("C07", "4"): "alarm for an unrelated reason: the change calls a nats.go method the environment model did not have (now modelled; un-modelled methods are inconclusive)",
+}
+# changes whose deciding entries were written after the sub-agent's report had been read: the first evaluation
+# recorded by seedeval is not a fair "before"; what the check as it stood before would have said is stated here
+FIRST_OVERRIDE = {
+    ("C10", "1"): ("missed", "every rendered program ended with a newline and used separators on the same line; VerifC10_Endings was written afterwards"),
+    ("C10", "2"): ("missed", "include resolution was outside the claim; VerifC10_Includes (in-memory file system) was written afterwards"),
+    ("C19", "1"): ("inconclusive", "the map-iteration inventory reported the new site (exit 2); VerifC19_ReferencedIncludes, which decides it, was written afterwards"),
+}
+
+
+def load(path):
     try:
-        agent_meta = json.load(open(meta_src))
+        return json.load(open(path))
     except Exception:
-        agent_meta = {"summary": open(meta_src).read()[:500]}
-    valid = bool(r.get("applies") and r.get("demo_passes_without") and r.get("demo_fails_with_change") and r.get("tests_pass"))
+        return None
+
+
+def first_what(out):
+    m = re.search(r"what: (.*)", out or "")
+    return (m.group(1) if m else "")[:300]
+
+
+def first_eval(pid, n):
+    if (pid, n) in FIRST_OVERRIDE:
+        return FIRST_OVERRIDE[(pid, n)]
+    if n in ("1", "2") and pid not in ("C10", "C19"):
+        r = load("%s/round1/eval_%s_%s.json" % (OUT, pid, n))
+        return (VERDICT.get(r.get("check_exit"), "?") if r else "?", "")
+    if n in ("3", "4"):
+        for line in open(OUT + "/first2/summary.txt"):
+            a = line.split()
+            if a[0] == pid and a[1] == n:
+                v = VERDICT.get(int(a[2].split("=")[1]), "?")
+                if (pid, n) in WRONG_REASON:
+                    return "missed", WRONG_REASON[(pid, n)]
+                return v, ""
+        return "?", ""
+    r = load("%s/round4/eval_%s_%s.json" % (OUT, pid, n))
+    return (VERDICT.get(r.get("check_exit"), "?") if r else "?", "")
+
+
+def current_eval(pid, n):
+    for d in ("round5", "round3", "round4"):
+        r = load("%s/%s/eval_%s_%s.json" % (OUT, d, pid, n))
+        if r:
+            return r, d
+    return None, None
+
+
+rows = []
+for patch in sorted(glob.glob(OUT + "/C*/patch*.diff")):
+    pid = patch.split("/")[-2]
+    n = re.search(r"patch(\d+)\.diff", patch).group(1)
+    src = os.path.dirname(patch)
+    agent_meta = load("%s/meta%s.json" % (src, n)) or {}
+    cur, cur_src = current_eval(pid, n)
+    if not cur:
+        continue
+    valid = bool(cur.get("applies") and cur.get("demo_passes_without") and cur.get("demo_fails_with_change") and cur.get("tests_pass"))
     if not valid:
         continue
-    dst = os.path.join(V, "seeded", pid, str(n))
+    dst = os.path.join(V, "seeded", pid, n)
     os.makedirs(dst, exist_ok=True)
-    shutil.copy("%s/patch%s.diff" % (src, n), os.path.join(dst, "patch.diff"))
+    shutil.copy(patch, os.path.join(dst, "patch.diff"))
     for f in glob.glob("%s/demo%s*" % (src, n)):
-        shutil.copy(f, os.path.join(dst, os.path.basename(f)))
-    reb = "/tmp/seed_out/rebased/%s_%s.diff" % (pid, n)
+        if os.path.isdir(f):
+            shutil.copytree(f, os.path.join(dst, os.path.basename(f)), dirs_exist_ok=True)
+        else:
+            shutil.copy(f, os.path.join(dst, os.path.basename(f)))
+    reb = "%s/rebased/%s_%s.diff" % (OUT, pid, n)
     if os.path.exists(reb):
         shutil.copy(reb, os.path.join(dst, "patch.rebased.diff"))
-    out = r.get("check_output", "")
-    first_what = ""
-    m = re.search(r"what: (.*)", out)
-    if m:
-        first_what = m.group(1)[:300]
-    verdict = {0: "MISSED (check exits 0)", 1: "caught (VIOLATION, exit 1)", 2: "inconclusive (exit 2)"}.get(r.get("check_exit"), "?")
-    r1 = None
-    p1 = "/tmp/seed_out/round1/eval_%s_%s.json" % (pid, n)
-    if os.path.exists(p1):
-        try:
-            r1 = {0: "missed", 1: "caught", 2: "inconclusive"}.get(json.load(open(p1)).get("check_exit"), "?")
-        except Exception:
-            r1 = None
+    fv, fnote = first_eval(pid, n)
+    cv = VERDICT.get(cur.get("check_exit"), "?")
+    rnd = {"1": 1, "2": 1, "3": 2, "4": 2, "5": 3}[n] if pid not in ("C10", "C19") else 3
     meta = {
-        "property": pid,
-        "summary": agent_meta.get("summary"),
-        "needs_to_manifest": agent_meta.get("needs"),
-        "files_changed": agent_meta.get("files"),
-        "produced_by": "fresh sub-agent given only the property text and a scratch worktree",
+        "property": pid, "round": rnd,
+        "summary": agent_meta.get("summary"), "needs_to_manifest": agent_meta.get("needs"), "files_changed": agent_meta.get("files"),
+        "produced_by": "fresh sub-agent given only the property text and a scratch worktree of /repo",
+        "base_commit": "0f5ed40 (rounds 1 and 2; patch.rebased.diff, where present, is the hand-ported copy for the current HEAD) / HEAD at the time (round 3)",
         "confirmed_by_me": {
-            "patch_applies_to_HEAD": r.get("applies"), "existing_tests_pass_with_change": r.get("tests_pass"),
-            "demo_fails_with_change": r.get("demo_fails_with_change"), "demo_passes_without": r.get("demo_passes_without"),
-            "how": "seedeval.py: scratch worktree of /repo HEAD, git apply, go test ./... in . and lib/go (up to 3 tries for the NATS port flake), demo with and without the change",
+            "patch_applies": cur.get("applies"), "existing_tests_pass_with_change": cur.get("tests_pass"),
+            "demo_fails_with_change": cur.get("demo_fails_with_change"), "demo_passes_without": cur.get("demo_passes_without"),
+            "how": "seedeval.py: scratch worktree of /repo HEAD, git apply, go test ./... in . and lib/go (up to 3 tries for the NATS port flake), demonstration with and without the change, then ./vcheck <id> quick with VERIF_REPO=<worktree>",
         },
-        "check_result": {"command": "./vcheck %s %s" % (pid, r.get("tier")), "exit": r.get("check_exit"), "verdict": verdict, "wall_s": r.get("check_wall_s"), "first_violation": first_what,
-                         "before_strengthening": r1},
+        "first_evaluation": {"verdict": fv, "note": fnote, "meaning": "verdict of the quick check as it stood before the change had been seen"},
+        "current_evaluation": {"command": "./vcheck %s quick (VERIF_REPO=<worktree with the change>)" % pid, "exit": cur.get("check_exit"), "verdict": cv,
+                               "wall_s": cur.get("check_wall_s"), "first_violation": first_what(cur.get("check_output")), "record": cur_src},
     }
     json.dump(meta, open(os.path.join(dst, "meta.json"), "w"), indent=1)
-    rows.append((pid, n, (agent_meta.get("summary") or "")[:150].replace("|", "/").replace("\n", " "), (agent_meta.get("needs") or "")[:120].replace("|", "/").replace("\n", " "), r1 or "-", verdict, first_what[:110].replace("|", "/")))
-table = "| property | # | change (independently produced) | needs to manifest | first evaluation | quick check now | first assertion that fails |\n|---|---|---|---|---|---|---|\n"
-for row in rows:
-    table += "| %s | %s | %s | %s | %s | %s | %s |\n" % row
-open(os.path.join(V, "seeded", "SUMMARY.md"), "w").write("# Independently produced breaking changes\n\n" + table)
-print(table)
+    rows.append((pid, n, rnd, (agent_meta.get("summary") or "")[:170].replace("|", "/").replace("\n", " "), fv, cv, first_what(cur.get("check_output"))[:120].replace("|", "/")))
+
+table = "| change | round | what it does | first evaluation | now | assertion that fires |\n|---|---|---|---|---|---|\n"
+for r in rows:
+    table += "| %s/%s | %d | %s | %s | %s | %s |\n" % r
+stats = {}
+for r in rows:
+    s = stats.setdefault(r[2], {"n": 0, "first": 0, "now": 0})
+    s["n"] += 1
+    s["first"] += r[4] == "caught"
+    s["now"] += r[5] == "caught"
+head = "# Independently produced breaking changes\n\n" + "\n".join(
+    "round %d: %d changes, %d caught at first evaluation, %d caught now" % (k, v["n"], v["first"], v["now"]) for k, v in sorted(stats.items())) + "\n\n"
+open(os.path.join(V, "seeded", "SUMMARY.md"), "w").write(head + table)
+print(head)
